@@ -3,6 +3,7 @@ package main
 // C08 — each send puts exactly the serialized stanza on the wire once, even concurrently.
 
 import (
+	"go/token"
 	"fmt"
 	"go/types"
 	"strings"
@@ -373,6 +374,70 @@ func c08StreamLogger(w *World, r *Report) {
 			}
 			if iLog >= 0 && iLog < iSock {
 				sockFirst = false
+			}
+			// a short socket write is an error (io.Writer: n < len(p) comes with a non-nil error): a success path has found
+			// the socket's count equal to len(p), or hands on the socket write's own results
+			if nSock == 1 && bad == "" {
+				sc, _ := path[iSock].(*ssa.Call)
+				var nv, ev ssa.Value
+				if sc != nil && sc.Referrers() != nil {
+					for _, rf := range *sc.Referrers() {
+						if ex, ok := rf.(*ssa.Extract); ok {
+							if ex.Index == 0 {
+								nv = ex
+							} else {
+								ev = ex
+							}
+						}
+					}
+				}
+				r0 := resolveOn(rres(path, ret)[0], len(path)-1, path)
+				passthrough := nv != nil && ev != nil && r0 == nv && res == ev
+				whole := nv != nil && pathAsserts(path, func(c ssa.Value, truth bool) bool {
+					bo, ok := c.(*ssa.BinOp)
+					if !ok || (bo.Op != token.EQL && bo.Op != token.NEQ) || (bo.Op == token.EQL) != truth {
+						return false
+					}
+					isN := func(v ssa.Value) bool { return v == nv || rvAny(v) == nv || resolveOn(v, curEdgeIdx, path) == nv }
+					isLen := func(v ssa.Value) bool {
+						lc, ok := v.(*ssa.Call)
+						if !ok {
+							return false
+						}
+						b, isB := lc.Call.Value.(*ssa.Builtin)
+						if !isB || b.Name() != "len" {
+							return false
+						}
+						// len of what was handed to the socket write (inside a helper: the helper's own parameter)
+						wa := sc.Common().Args[len(sc.Common().Args)-1]
+						return lc.Call.Args[0] == wa || isParamOf(rvAny(lc.Call.Args[0]), fn)
+					}
+					return (isN(bo.X) && isLen(bo.Y)) || (isN(bo.Y) && isLen(bo.X))
+				})
+				// (a path on which an error known to be a package-level error value — io.ErrShortWrite — was then found nil
+				// does not exist)
+				infeasible := pathAsserts(path, func(c ssa.Value, truth bool) bool {
+					x, eq, ok := nilCompare(c)
+					if !ok || eq != truth {
+						return false
+					}
+					rv := resolveOn(x, curEdgeIdx, path)
+					if rv == nil {
+						rv = x
+					}
+					if mi, isMI := rv.(*ssa.MakeInterface); isMI {
+						rv = mi.X
+					}
+					u, isLoad := rv.(*ssa.UnOp)
+					if !isLoad {
+						return false
+					}
+					_, isG := u.X.(*ssa.Global)
+					return isG
+				})
+				if !passthrough && !whole && !infeasible {
+					bad = "a path reports success (return at " + w.ipos(ret) + ") without having found the socket's count equal to len(p): a short write puts part of a stanza on the wire and the sender is told it was sent"
+				}
 			}
 		})
 		r.Check(bad == "" && nOK > 0 && sockFirst, "R2", cons, w.pos(fn.Pos()), bad+map[bool]string{false: " log written before the socket", true: ""}[sockFirst], "one socket Write(p), before the log")
